@@ -11,7 +11,8 @@
 //!                                of linear index i (row i % R, column i / R) is seq[i] for i < L and
 //!                                letters[(i - L) % len] otherwise (padding that is NOT the wildcard)
 //!     src=sample.<seed>          StripedSequence::sample(StdRng::seed_from_u64(seed), Background::uniform(), L)
-//!                                (`seq=-`; the sequence is whatever was drawn: every cell, padding included)
+//!                                (`seq=-`; the sequence is whatever was drawn; the padding cells were drawn too up to
+//!                                /repo a1b1f91 and are the wildcard since the fix 740d563: the driver accepts both)
 //!   for both the observation starts with lq=<letters>: Index<usize> of the striped sequence at 0 .. L-1
 //! `score run` reads input lines and appends ` => <observation>`; the observation is a
 //!   list of space-separated `key=value` tokens:
